@@ -1,5 +1,8 @@
+import props as _props
+
 PROP = {
     "coq": ["C10"],
+    "extra": [_props.race_detector_run("C10")],
     "exhaustive": False,
     "rule": "Real server on loopback TCP: fixed and seeded random traces mixing Start, Stop, connect, held accept goroutine across "
             "Stop (and Stop;Start), requests, disconnects, held removals; after every step the started flag, active-list length and "
